@@ -100,14 +100,18 @@ inductive RErr where
 
 /-- `rewind`: replace an index by its parent; fails when the header is not stored.  The
 length check is made *before* the lookup, as in the code. -/
-def rewind (U : Nat → Blk) (m : Mgr) (revLen appLen maxLen : Nat) (i : Nat) : Except RErr Nat :=
-  if revLen + appLen > maxLen then .error .tooLong
+def tooLong (revLen appLen : Nat) : Option Nat → Bool
+  | none => false                       -- `math.MaxInt`: a slice is never longer
+  | some maxLen => revLen + appLen > maxLen
+
+def rewind (U : Nat → Blk) (m : Mgr) (revLen appLen : Nat) (maxLen : Option Nat) (i : Nat) : Except RErr Nat :=
+  if tooLong revLen appLen maxLen then .error .tooLong
   else if m.header i then .ok (U i).parent
   else .error .missingBlock
 
 /-- phase 1/2: rewind `a` while it is higher than `h`, collecting the visited ids (in visiting
 order).  `other` is the length of the other list (for the `maxLen` test). -/
-def rewindAbove (U : Nat → Blk) (m : Mgr) (maxLen : Nat) (h : Nat) (other : Nat) :
+def rewindAbove (U : Nat → Blk) (m : Mgr) (maxLen : Option Nat) (h : Nat) (other : Nat) :
     Nat → Nat → List Nat → Except RErr (Nat × List Nat)
   | 0, a, acc => if (U a).height > h then .error .panic else .ok (a, acc)
   | fuel + 1, a, acc =>
@@ -118,7 +122,7 @@ def rewindAbove (U : Nat → Blk) (m : Mgr) (maxLen : Nat) (h : Nat) (other : Na
     else .ok (a, acc)
 
 /-- phase 3: rewind both until they meet -/
-def rewindBoth (U : Nat → Blk) (m : Mgr) (maxLen : Nat) :
+def rewindBoth (U : Nat → Blk) (m : Mgr) (maxLen : Option Nat) :
     Nat → Nat → Nat → List Nat → List Nat → Except RErr (List Nat × List Nat)
   | 0, a, b, rev, app => if a = b then .ok (rev, app) else .error .panic
   | fuel + 1, a, b, rev, app =>
@@ -135,7 +139,7 @@ def rewindBoth (U : Nat → Blk) (m : Mgr) (maxLen : Nat) :
 
 /-- `reorgPath(a, b, maxLen)` for initialised indices: `(revert, apply)`; `apply` is returned
 in application order (the code reverses it at the end) -/
-def reorgPath (U : Nat → Blk) (m : Mgr) (a b : Nat) (maxLen : Nat) : Except RErr (List Nat × List Nat) :=
+def reorgPath (U : Nat → Blk) (m : Mgr) (a b : Nat) (maxLen : Option Nat) : Except RErr (List Nat × List Nat) :=
   let fuel := (U a).height + (U b).height + 2
   match rewindAbove U m maxLen (U b).height 0 fuel a [] with
   | .error e => .error e
@@ -189,7 +193,7 @@ def applyAll (U : Nat → Blk) : List Nat → Mgr → Mgr × Option RErr
 
 /-- `reorgTo(index)`: on error the manager is left where the failing step found it -/
 def reorgTo (U : Nat → Blk) (m : Mgr) (target : Nat) : Mgr × Option RErr :=
-  match reorgPath U m m.tip target (2^63 - 1) with
+  match reorgPath U m m.tip target none with
   | .error e => (m, some e)
   | .ok (rev, app) =>
     match revertN U rev.length m with
